@@ -32,7 +32,8 @@ EXPLANATION = (
     " R5/R6 (imported from C04-R2 and C08-R2): the primitive encoders (`_strftime` = strftime with the declared format) and the validators' normalisation (Nullable.validate maps only None to None) decide what text reaches the wire."
     ' RC (call-condition drift, stonelint.effects.run_calls): for every call of a repository or imported-library function in the functions the property is anchored in, the path conditions of its occurrences are compared with reference/effects.json by truth table; an assignment under which the function used to make the call and now completes without it is a violation (tests on memo tables, emptiness of the iterated collection and earlier refusals excepted; re-spelled conditions are not claimed).'
     ' MK (memo-key rule, stonelint.memo): a memo table or done-set the reference tree does not have must be keyed by every access path the skipped code reads, injectively and type-aware.'
-    ' RI (interface drift, stonelint.interface): constants and tables (folded values), compiled regular expressions (witness text), parameter defaults, special methods, base classes and caching decorators of the modules the property rests on are compared with reference/interface.json; only a concrete difference in what is computed is reported.')
+    ' RI (interface drift, stonelint.interface): constants and tables (folded values), compiled regular expressions (witness text), parameter defaults, special methods, base classes and caching decorators of the modules the property rests on are compared with reference/interface.json; only a concrete difference in what is computed is reported.'
+    ' MU (mutation drift, stonelint.mutation): the functions the property rests on update in place only the caller-owned, class-level and module-level objects they updated on the confirmed tree, and have no new handler that swallows an exception (reference/mutations.json).')
 ASSUMPTIONS = [
     'reference/wire_format.json is a faithful transcription of docs/json_serializer.rst',
     'json.dumps renders Python dict/list/str/int/float/bool/None as the JSON kinds of the same name',
@@ -286,6 +287,8 @@ def run(pm, ctx):
     memo.run(pm, ctx, 'C05-MK', OWN['C05'])
     from .. import interface
     interface.run(pm, ctx, 'C05-RI', OWN['C05'])
+    from .. import mutation
+    mutation.run(pm, ctx, 'C05-MU', OWN['C05'])
     ctx.import_rules(pm, 'C04', {'C04-R4'}, 'C05-R7',
                      'the encoder walks the field table of the declared type (shared with C04-R4)')
     ctx.import_rules(pm, 'C08', {'C08-R6'}, 'C05-R8',
